@@ -18,6 +18,9 @@ type detSet struct {
 	roots  []*ssa.Function
 	reach  map[*ssa.Function]bool // canopy functions reachable from the roots (cut at sinks)
 	list   []*ssa.Function
+
+	fieldReads    map[*types.Var]bool
+	structEscapes map[*types.Named]bool
 }
 
 // isObservabilitySink: metrics and logging do not feed consensus results; the walk does not descend into them.
@@ -526,6 +529,11 @@ func (d *detSet) benignCall(cc *ssa.CallCommon, depth int) bool {
 	if sc.Parent() != nil { // nested function literal
 		return d.sinkOnlyFunc(sc, depth+1)
 	}
+	// a named helper (or the bound-method wrapper of one) that only feeds observability sinks — e.g. an observe closure
+	// turned into a method
+	if (sc.Synthetic != "" || inCanopy(sc)) && d.sinkOnlyFunc(sc, depth+1) {
+		return true
+	}
 	return false
 }
 
@@ -631,6 +639,10 @@ func (d *detSet) clockTaint(f *ssa.Function, src ssa.Value) []clockFinding {
 						}
 					}
 					if tainted[x.Val] {
+						// a field that no non-test canopy code ever reads (a statistics slot) cannot carry the value anywhere
+						if fv := fieldOfAddr(x.Addr); fv != nil && !d.fieldReadAnywhere(fv) {
+							break
+						}
 						out = append(out, clockFinding{p.Pos(in.Pos()), "a clock-derived value is stored into " + p.path(x.Addr)})
 					}
 				}
@@ -946,4 +958,114 @@ func keysOfBool(m map[string]bool) []string {
 	}
 	sort.Strings(out)
 	return out
+}
+
+// fieldReadAnywhere: is the struct field loaded (or its address taken for anything but a store, or the whole struct
+// copied / handed to a callee) anywhere in non-test canopy code? A field that is only ever stored to is a dead slot.
+func (d *detSet) fieldReadAnywhere(fv *types.Var) bool {
+	if d.fieldReads == nil {
+		d.fieldReads = map[*types.Var]bool{}
+		d.structEscapes = map[*types.Named]bool{}
+		for _, f := range d.c.p.Funcs {
+			if !inCanopy(f) {
+				continue
+			}
+			for _, g := range withAnons(f) {
+				instrs(g, func(in ssa.Instruction) {
+					switch x := in.(type) {
+					case *ssa.FieldAddr:
+						w := fieldOfAddr(x)
+						if w == nil {
+							return
+						}
+						for _, ref := range *x.Referrers() {
+							if st, ok := ref.(*ssa.Store); ok && st.Addr == x {
+								continue
+							}
+							d.fieldReads[w] = true
+						}
+					case *ssa.Field:
+						if st := derefStruct(x.X.Type()); st != nil && x.Field < st.NumFields() {
+							d.fieldReads[st.Field(x.Field)] = true
+						}
+					}
+				})
+			}
+		}
+	}
+	if d.fieldReads[fv] {
+		return true
+	}
+	// the value of the enclosing struct must not travel as a whole (reflection, marshalling, comparison): accept only
+	// unexported fields of unexported-or-exported canopy structs that are never converted to an interface
+	if fv.Exported() {
+		return true
+	}
+	return false
+}
+
+// keyedOnlyFn: a canopy function all of whose effects are keyed by its own parameters — map updates whose key is a
+// parameter, calls of known keyed sinks or of effect-free functions, locking. Handing it the iteration variable of a map
+// range is as order-insensitive as performing the map update in the loop body (a helper shared by several callers).
+func (d *detSet) keyedOnlyFn(f *ssa.Function, sinks map[string]bool, depth int) bool {
+	if f == nil || len(f.Blocks) == 0 || depth > 2 || !inCanopy(f) {
+		return false
+	}
+	isParam := func(v ssa.Value) bool {
+		for {
+			switch x := v.(type) {
+			case *ssa.Parameter:
+				return true
+			case *ssa.Field:
+				v = x.X
+			case *ssa.UnOp:
+				v = x.X
+			case *ssa.FieldAddr:
+				v = x.X
+			case *ssa.Alloc: // a by-value struct parameter spilled to a cell: accept if a parameter is stored into it
+				for _, ref := range *x.Referrers() {
+					if st, ok := ref.(*ssa.Store); ok && st.Addr == x {
+						if _, ok := st.Val.(*ssa.Parameter); ok {
+							return true
+						}
+					}
+				}
+				return false
+			default:
+				return false
+			}
+		}
+	}
+	ok := true
+	instrs(f, func(in ssa.Instruction) {
+		switch x := in.(type) {
+		case *ssa.Store:
+			if !localAddr(x.Addr) {
+				ok = false
+			}
+		case *ssa.MapUpdate:
+			if !isParam(x.Key) {
+				ok = false
+			}
+		case *ssa.Send, *ssa.Go, *ssa.Panic:
+			ok = false
+		case ssa.CallInstruction:
+			cc := x.Common()
+			if _, isB := cc.Value.(*ssa.Builtin); isB {
+				return
+			}
+			name := calleeName(cc)
+			if strings.HasPrefix(name, "(*sync.") {
+				return
+			}
+			if readOnlyInvoke(cc) || sinks[name] {
+				return
+			}
+			if sc := cc.StaticCallee(); sc != nil && (d.effectFree(sc, 0) || d.keyedOnlyFn(sc, sinks, depth+1)) {
+				return
+			}
+			ok = false
+		}
+	})
+	return ok
 }
